@@ -16,70 +16,77 @@ import (
 	"strings"
 )
 
-// disjunctsOf finds the definition of sym in the script and returns its top-level disjuncts.
-func disjunctsOf(script []string, sym string) []string {
-	prefix := "(assert (= " + sym + " (or "
+// defOf finds the definition (assert (= sym <term>)) of a reach/condition symbol in the script.
+func defOf(script []string, sym string) string {
+	prefix := "(assert (= " + sym + " "
 	for _, l := range script {
 		if strings.HasPrefix(l, prefix) {
-			body := strings.TrimSuffix(strings.TrimPrefix(l, "(assert (= "+sym+" "), "))")
-			el := listElems(body)
-			if len(el) >= 3 && el[0] == "or" {
-				return el[1:]
-			}
+			return strings.TrimSuffix(strings.TrimPrefix(l, prefix), "))")
 		}
 	}
-	return nil
+	return ""
 }
 
-// guardCases expands the guard into cases (at most two levels of reach definitions, at most 12 cases).
+// expandCases rewrites a reachability term into a list of cases (conjunctions) that together cover it:
+// `or` becomes alternatives, `and` the product, reach symbols are unfolded through their definitions.
+func expandCases(script []string, term string, depth int) []string {
+	const limit = 16
+	if depth > 8 {
+		return []string{term}
+	}
+	if !strings.HasPrefix(term, "(") {
+		if strings.HasPrefix(term, "reach.") {
+			if d := defOf(script, term); d != "" {
+				cs := expandCases(script, d, depth+1)
+				if len(cs) > 1 && len(cs) <= limit {
+					return cs
+				}
+			}
+		}
+		return []string{term}
+	}
+	el := listElems(term)
+	switch el[0] {
+	case "or":
+		var out []string
+		for _, d := range el[1:] {
+			out = append(out, expandCases(script, d, depth+1)...)
+		}
+		if len(out) > limit {
+			return []string{term}
+		}
+		return out
+	case "and":
+		cases := []string{""}
+		for _, c := range el[1:] {
+			sub := expandCases(script, c, depth+1)
+			if len(cases)*len(sub) > limit {
+				sub = []string{c}
+			}
+			var next []string
+			for _, a := range cases {
+				for _, b := range sub {
+					if a == "" {
+						next = append(next, b)
+					} else {
+						next = append(next, "(and "+a+" "+b+")")
+					}
+				}
+			}
+			cases = next
+		}
+		return cases
+	}
+	return []string{term}
+}
+
+// guardCases expands the guard into covering cases (at most 16).
 func guardCases(script []string, guard string) []string {
-	var atoms []string
-	if strings.HasPrefix(guard, "(and ") {
-		atoms = listElems(guard)[1:]
-	} else {
-		atoms = []string{guard}
-	}
-	cases := []string{""}
-	for _, a := range atoms {
-		ds := disjunctsOf(script, a)
-		if ds == nil {
-			continue
-		}
-		// one more level: a disjunct of the form (and reach.bM c) or reach.bM
-		var expanded []string
-		for _, d := range ds {
-			first := d
-			if strings.HasPrefix(d, "(and ") {
-				first = listElems(d)[1]
-			}
-			inner := disjunctsOf(script, first)
-			if inner != nil && len(ds)*len(inner) <= 12 {
-				for _, in := range inner {
-					expanded = append(expanded, "(and "+d+" "+in+")")
-				}
-			} else {
-				expanded = append(expanded, d)
-			}
-		}
-		var next []string
-		for _, c := range cases {
-			for _, d := range expanded {
-				if c == "" {
-					next = append(next, d)
-				} else {
-					next = append(next, "(and "+c+" "+d+")")
-				}
-			}
-		}
-		if len(next) > 12 {
-			continue
-		}
-		cases = next
-	}
-	if len(cases) == 1 && cases[0] == "" {
+	cs := expandCases(script, guard, 0)
+	if len(cs) < 2 {
 		return nil
 	}
-	return cases
+	return cs
 }
 
 // trySplit proves o by cases on its guard. Returns true iff every case is unsat.
@@ -111,6 +118,62 @@ func (e *Engine) trySplit(o *Obligation, outDir string, timeout int) (float64, b
 			}
 		}
 		cancel()
+		if !proved {
+			// is the case infeasible? (assumptions + case without the negated goal; unsat => nothing to prove)
+			var body strings.Builder
+			flines, _ := sliceScript((*o.Script)[:o.Prefix], strings.Join(o.Extra, "\n")+"\n"+c+"\n"+o.Guard+"\n"+o.Goal)
+			for _, l := range flines {
+				body.WriteString(l + "\n")
+			}
+			for _, l := range o.Extra {
+				body.WriteString(l + "\n")
+			}
+			body.WriteString("(assert " + c + ")\n") // the case implies the guard (cases are the guard's disjuncts)
+			b := body.String()
+			txt := "; obligation " + o.Name + fmt.Sprintf(" (case %d: feasibility)\n", i) + "(set-logic ALL)\n" + e.Prelude.Slice(b) + b + "(check-sat)\n"
+			ffile := strings.TrimSuffix(file, ".smt2") + ".feas.smt2"
+			os.WriteFile(ffile, []byte(txt), 0o644)
+			for _, sp := range solvers[:2] {
+				if rr := runSolver(context.Background(), sp, ffile, timeout); rr.status == "unsat" {
+					proved = true
+					total += rr.secs
+					break
+				}
+			}
+		}
+		if !proved {
+			// the same case on the relevance-sliced script (sound: fewer assumptions)
+			goal := strings.Join(o.Extra, "\n") + "\n" + c + "\n" + o.Guard + "\n" + o.Goal
+			lines, dropped := sliceScript((*o.Script)[:o.Prefix], goal)
+			if dropped {
+				var body strings.Builder
+				for _, l := range lines {
+					body.WriteString(l + "\n")
+				}
+				for _, l := range o.Extra {
+					body.WriteString(l + "\n")
+				}
+				body.WriteString("(assert " + c + ")\n(assert (not " + sImp(o.Guard, o.Goal) + "))\n")
+				b := body.String()
+				txt := "; obligation " + o.Name + fmt.Sprintf(" (case %d, relevance slice)\n", i) + "(set-logic ALL)\n" + e.Prelude.Slice(b) + b + "(check-sat)\n"
+				sfile := strings.TrimSuffix(file, ".smt2") + ".sliced.smt2"
+				os.WriteFile(sfile, []byte(txt), 0o644)
+				ctx2, cancel2 := context.WithCancel(context.Background())
+				ch2 := make(chan solveResult, len(solvers))
+				for _, sp := range solvers {
+					go func(sp solverSpec) { ch2 <- runSolver(ctx2, sp, sfile, timeout) }(sp)
+				}
+				for range solvers {
+					rr := <-ch2
+					if rr.status == "unsat" {
+						proved = true
+						total += rr.secs
+						break
+					}
+				}
+				cancel2()
+			}
+		}
 		if !proved {
 			return total, false
 		}
